@@ -284,6 +284,21 @@ impl Ord for Key {
         match self.labels.len() {
             0 => cmp::Ordering::Equal,
             1 => self.labels[0].cmp(&other.labels[0]),
+            2 => {
+                // `eq` and the hasher treat two labels as an unordered pair, so order each pair the same way here
+                // before comparing, otherwise two equal keys could compare as unequal.
+                let (mine_lo, mine_hi) = if self.labels[0] <= self.labels[1] {
+                    (&self.labels[0], &self.labels[1])
+                } else {
+                    (&self.labels[1], &self.labels[0])
+                };
+                let (his_lo, his_hi) = if other.labels[0] <= other.labels[1] {
+                    (&other.labels[0], &other.labels[1])
+                } else {
+                    (&other.labels[1], &other.labels[0])
+                };
+                mine_lo.cmp(his_lo).then_with(|| mine_hi.cmp(his_hi))
+            }
             n if n < 8 => {
                 let mut labels_sort_map: [u8; 8] = [0, 1, 2, 3, 4, 5, 6, 7];
                 labels_sort_map[..n].sort_by_key(|i| self.labels[*i as usize].key());
